@@ -60,6 +60,7 @@ partial def parseSTy : List String → Option (STy × List String)
   | "Q" :: r => (parseSTy r).map fun (t, r) => (.seq t, r)
   | "M" :: r => (parseSTy r).map fun (t, r) => (.map t, r)
   | "R" :: r => some (.treeInner, r)
+  | "Z" :: sg :: bits :: r => some (.nonzero (sg == "1") bits.toNat!, r)
   | "T" :: n :: r => (parseSFields n.toNat! r).map fun (fs, r) => (.struct fs, r)
   | _ => none
 partial def parseSFields : Nat → List String → Option (List (String × STy) × List String)
@@ -80,8 +81,11 @@ partial def svalTok : SVal → String
   | .map es => s!"m {es.length}" ++ String.join (es.map fun (k, v) => " " ++ E2E.valTok k ++ " " ++ svalTok v)
   | .struct fs => s!"t {fs.length}" ++ String.join (fs.map fun (n, v) => " " ++ charsTok n.toList ++ " " ++ svalTok v)
 
+/-- `invalid_value` is raised by the `nonzero` consumer of `Model/Locs.lean` only, with the modelled fallback
+location: compared in full.  The other static kinds come from the leaf types of `Model/De.lean` (cell not
+tracked there): compared without location. -/
 def errTok (e : DErr) : String :=
-  if E2E.serdeHookKinds.contains e.kind then s!"err {e.kind} {codeTok 0} {codeTok 0}"
+  if e.kind != "invalid_value" && E2E.serdeHookKinds.contains e.kind then s!"err {e.kind} {codeTok 0} {codeTok 0}"
   else s!"err {e.kind} {codeTok e.loc} {codeTok e.loc2}"
 
 /-- `-` = no in-memory input (reader), otherwise the hex text -/
